@@ -76,6 +76,41 @@ impl<'s> Semantics<'s> {
             }))
     }
 
+    /// The implicit count or index register of a string, loop or rep
+    /// instruction: (r/e)cx, (r/e)si or (r/e)di at the address size of the
+    /// instruction, which an address-size override (67h) narrows.
+    ///
+    /// `register` is one of `X86_REG_CX`, `X86_REG_SI` and `X86_REG_DI`.
+    pub fn address_size_register(
+        &self,
+        register: x86_reg,
+    ) -> Result<&'static X86Register, Error> {
+        let address_bits = self.details()?.addr_size as usize * 8;
+        let sized = match (register, address_bits) {
+            (x86_reg::X86_REG_CX, 16) => x86_reg::X86_REG_CX,
+            (x86_reg::X86_REG_CX, 32) => x86_reg::X86_REG_ECX,
+            (x86_reg::X86_REG_CX, 64) => x86_reg::X86_REG_RCX,
+            (x86_reg::X86_REG_SI, 16) => x86_reg::X86_REG_SI,
+            (x86_reg::X86_REG_SI, 32) => x86_reg::X86_REG_ESI,
+            (x86_reg::X86_REG_SI, 64) => x86_reg::X86_REG_RSI,
+            (x86_reg::X86_REG_DI, 16) => x86_reg::X86_REG_DI,
+            (x86_reg::X86_REG_DI, 32) => x86_reg::X86_REG_EDI,
+            (x86_reg::X86_REG_DI, 64) => x86_reg::X86_REG_RDI,
+            _ => return self.get_register(register)?.get_full(),
+        };
+        self.get_register(sized)
+    }
+
+    /// Zero-extends an address held in an address-size register to the width
+    /// of addresses in this mode.
+    fn widen_address(&self, address: Expression) -> Result<Expression, Error> {
+        if address.bits() < self.mode().bits() {
+            Expr::zext(self.mode().bits(), address)
+        } else {
+            Ok(address)
+        }
+    }
+
     /// Generates a temporary scalar unique to this instruction.
     pub fn temp(&self, subindex: usize, bits: usize) -> Scalar {
         Scalar::new(
@@ -271,7 +306,7 @@ impl<'s> Semantics<'s> {
 
     /// Returns a condition which is true if a loop should be taken
     pub fn loop_condition(&self) -> Result<Expression, Error> {
-        let cx = self.get_register(x86_reg::X86_REG_ECX)?.get_full()?;
+        let cx = self.address_size_register(x86_reg::X86_REG_CX)?;
 
         if let capstone::InstrIdArch::X86(instruction_id) = self.instruction().id {
             match instruction_id {
@@ -299,7 +334,7 @@ impl<'s> Semantics<'s> {
             return Err(Error::ControlFlowGraphEntryExitNotFound);
         }
 
-        let cx = self.get_register(x86_reg::X86_REG_ECX)?.get_full()?;
+        let cx = self.address_size_register(x86_reg::X86_REG_CX)?;
 
         let head_index = control_flow_graph.new_block()?.index();
 
@@ -307,7 +342,7 @@ impl<'s> Semantics<'s> {
             let loop_block = control_flow_graph.new_block()?;
             cx.set(
                 loop_block,
-                Expr::sub(cx.get()?, expr_const(1, self.mode().bits()))?,
+                Expr::sub(cx.get()?, expr_const(1, cx.bits()))?,
             )?;
             loop_block.index()
         };
@@ -322,12 +357,12 @@ impl<'s> Semantics<'s> {
         control_flow_graph.conditional_edge(
             head_index,
             entry,
-            Expr::cmpneq(cx.get()?, expr_const(0, self.mode().bits()))?,
+            Expr::cmpneq(cx.get()?, expr_const(0, cx.bits()))?,
         )?;
         control_flow_graph.conditional_edge(
             head_index,
             terminating_index,
-            Expr::cmpeq(cx.get()?, expr_const(0, self.mode().bits()))?,
+            Expr::cmpeq(cx.get()?, expr_const(0, cx.bits()))?,
         )?;
 
         // exit -> loop
@@ -389,7 +424,7 @@ impl<'s> Semantics<'s> {
             return Err(Error::ControlFlowGraphEntryExitNotFound);
         }
 
-        let cx = self.get_register(x86_reg::X86_REG_ECX)?.get_full()?;
+        let cx = self.address_size_register(x86_reg::X86_REG_CX)?;
 
         let head_index = control_flow_graph.new_block()?.index();
 
@@ -397,7 +432,7 @@ impl<'s> Semantics<'s> {
             let loop_block = control_flow_graph.new_block()?;
             cx.set(
                 loop_block,
-                Expr::sub(cx.get()?, expr_const(1, self.mode().bits()))?,
+                Expr::sub(cx.get()?, expr_const(1, cx.bits()))?,
             )?;
             loop_block.index()
         };
@@ -412,12 +447,12 @@ impl<'s> Semantics<'s> {
         control_flow_graph.conditional_edge(
             head_index,
             entry,
-            Expr::cmpneq(cx.get()?, expr_const(0, self.mode().bits()))?,
+            Expr::cmpneq(cx.get()?, expr_const(0, cx.bits()))?,
         )?;
         control_flow_graph.conditional_edge(
             head_index,
             terminating_index,
-            Expr::cmpeq(cx.get()?, expr_const(0, self.mode().bits()))?,
+            Expr::cmpeq(cx.get()?, expr_const(0, cx.bits()))?,
         )?;
 
         // exit -> loop
@@ -1381,15 +1416,9 @@ impl<'s> Semantics<'s> {
     pub fn cmpsb(&self, control_flow_graph: &mut ControlFlowGraph) -> Result<(), Error> {
         let detail = self.details()?;
 
-        let si = match *self.mode() {
-            Mode::X86 => self.get_register(x86_reg::X86_REG_ESI)?,
-            Mode::Amd64 => self.get_register(x86_reg::X86_REG_RSI)?,
-        };
-        let di = match *self.mode() {
-            Mode::X86 => self.get_register(x86_reg::X86_REG_EDI)?,
-            Mode::Amd64 => self.get_register(x86_reg::X86_REG_RDI)?,
-        };
-        let bits = self.mode().bits();
+        let si = self.address_size_register(x86_reg::X86_REG_SI)?;
+        let di = self.address_size_register(x86_reg::X86_REG_DI)?;
+        let bits = si.bits();
 
         let head_index = {
             let block = control_flow_graph.new_block()?;
@@ -2098,7 +2127,7 @@ impl<'s> Semantics<'s> {
     pub fn lodsb(&self, control_flow_graph: &mut ControlFlowGraph) -> Result<(), Error> {
         let detail = self.details()?;
 
-        let si = self.get_register(x86_reg::X86_REG_ESI)?.get_full()?;
+        let si = self.address_size_register(x86_reg::X86_REG_SI)?;
 
         let head_index = {
             let block = control_flow_graph.new_block()?;
@@ -2115,7 +2144,7 @@ impl<'s> Semantics<'s> {
 
             si.set(
                 block,
-                Expr::add(si.get()?, expr_const(1, self.mode().bits()))?,
+                Expr::add(si.get()?, expr_const(1, si.bits()))?,
             )?;
 
             block.index()
@@ -2126,7 +2155,7 @@ impl<'s> Semantics<'s> {
 
             si.set(
                 block,
-                Expr::sub(si.get()?, expr_const(1, self.mode().bits()))?,
+                Expr::sub(si.get()?, expr_const(1, si.bits()))?,
             )?;
 
             block.index()
@@ -2158,7 +2187,7 @@ impl<'s> Semantics<'s> {
     pub fn lodsd(&self, control_flow_graph: &mut ControlFlowGraph) -> Result<(), Error> {
         let detail = self.details()?;
 
-        let si = self.get_register(x86_reg::X86_REG_ESI)?.get_full()?;
+        let si = self.address_size_register(x86_reg::X86_REG_SI)?;
 
         let head_index = {
             let block = control_flow_graph.new_block()?;
@@ -2175,7 +2204,7 @@ impl<'s> Semantics<'s> {
 
             si.set(
                 block,
-                Expr::add(si.get()?, expr_const(4, self.mode().bits()))?,
+                Expr::add(si.get()?, expr_const(4, si.bits()))?,
             )?;
 
             block.index()
@@ -2186,7 +2215,7 @@ impl<'s> Semantics<'s> {
 
             si.set(
                 block,
-                Expr::sub(si.get()?, expr_const(4, self.mode().bits()))?,
+                Expr::sub(si.get()?, expr_const(4, si.bits()))?,
             )?;
 
             block.index()
@@ -2219,10 +2248,10 @@ impl<'s> Semantics<'s> {
         let block_index = {
             let block = control_flow_graph.new_block()?;
 
-            let cx = self.get_register(x86_reg::X86_REG_CX)?.get_full()?;
+            let cx = self.address_size_register(x86_reg::X86_REG_CX)?;
             cx.set(
                 block,
-                Expr::sub(cx.get()?, expr_const(1, self.mode().bits()))?,
+                Expr::sub(cx.get()?, expr_const(1, cx.bits()))?,
             )?;
 
             block.index()
@@ -2410,15 +2439,15 @@ impl<'s> Semantics<'s> {
 
         let bits_size = detail.operands[1].size as usize * 8;
 
-        let si = self.get_register(x86_reg::X86_REG_SI)?.get_full()?;
-        let di = self.get_register(x86_reg::X86_REG_DI)?.get_full()?;
+        let si = self.address_size_register(x86_reg::X86_REG_SI)?;
+        let di = self.address_size_register(x86_reg::X86_REG_DI)?;
 
         let head_index = {
             let block = control_flow_graph.new_block()?;
 
             let temp = self.temp(0, bits_size);
-            block.load(temp.clone(), si.get()?);
-            block.store(di.get()?, temp.into());
+            block.load(temp.clone(), self.widen_address(si.get()?)?);
+            block.store(self.widen_address(di.get()?)?, temp.into());
 
             block.index()
         };
@@ -2430,7 +2459,7 @@ impl<'s> Semantics<'s> {
                 block,
                 Expr::add(
                     si.get()?,
-                    expr_const((bits_size / 8) as u64, self.mode().bits()),
+                    expr_const((bits_size / 8) as u64, si.bits()),
                 )?,
             )?;
 
@@ -2438,7 +2467,7 @@ impl<'s> Semantics<'s> {
                 block,
                 Expr::add(
                     di.get()?,
-                    expr_const((bits_size / 8) as u64, self.mode().bits()),
+                    expr_const((bits_size / 8) as u64, si.bits()),
                 )?,
             )?;
 
@@ -2452,7 +2481,7 @@ impl<'s> Semantics<'s> {
                 block,
                 Expr::sub(
                     si.get()?,
-                    expr_const((bits_size / 8) as u64, self.mode().bits()),
+                    expr_const((bits_size / 8) as u64, si.bits()),
                 )?,
             )?;
 
@@ -2460,7 +2489,7 @@ impl<'s> Semantics<'s> {
                 block,
                 Expr::sub(
                     di.get()?,
-                    expr_const((bits_size / 8) as u64, self.mode().bits()),
+                    expr_const((bits_size / 8) as u64, si.bits()),
                 )?,
             )?;
 
@@ -3808,14 +3837,14 @@ impl<'s> Semantics<'s> {
 
     pub fn scasb(&self, control_flow_graph: &mut ControlFlowGraph) -> Result<(), Error> {
         let al = self.get_register(x86_reg::X86_REG_AL)?;
-        let di = self.get_register(x86_reg::X86_REG_DI)?.get_full()?;
+        let di = self.address_size_register(x86_reg::X86_REG_DI)?;
 
         let head_index = {
             let block = control_flow_graph.new_block()?;
 
             // get operands
             let temp = self.temp(0, 8);
-            block.load(temp.clone(), di.get()?);
+            block.load(temp.clone(), self.widen_address(di.get()?)?);
             let expr = Expr::sub(al.get()?, temp.clone().into())?;
 
             // calculate flags
@@ -3832,7 +3861,7 @@ impl<'s> Semantics<'s> {
 
             di.set(
                 block,
-                Expr::add(di.get()?, expr_const(1, self.mode().bits()))?,
+                Expr::add(di.get()?, expr_const(1, di.bits()))?,
             )?;
 
             block.index()
@@ -3843,7 +3872,7 @@ impl<'s> Semantics<'s> {
 
             di.set(
                 block,
-                Expr::sub(di.get()?, expr_const(1, self.mode().bits()))?,
+                Expr::sub(di.get()?, expr_const(1, di.bits()))?,
             )?;
 
             block.index()
@@ -3874,14 +3903,14 @@ impl<'s> Semantics<'s> {
 
     pub fn scasw(&self, control_flow_graph: &mut ControlFlowGraph) -> Result<(), Error> {
         let ax = self.get_register(x86_reg::X86_REG_AX)?;
-        let di = self.get_register(x86_reg::X86_REG_DI)?.get_full()?;
+        let di = self.address_size_register(x86_reg::X86_REG_DI)?;
 
         let head_index = {
             let block = control_flow_graph.new_block()?;
 
             // get operands
             let temp = self.temp(0, 16);
-            block.load(temp.clone(), di.get()?);
+            block.load(temp.clone(), self.widen_address(di.get()?)?);
             let expr = Expr::sub(ax.get()?, temp.clone().into())?;
 
             // calculate flags
@@ -3898,7 +3927,7 @@ impl<'s> Semantics<'s> {
 
             di.set(
                 block,
-                Expr::add(di.get()?, expr_const(2, self.mode().bits()))?,
+                Expr::add(di.get()?, expr_const(2, di.bits()))?,
             )?;
 
             block.index()
@@ -3909,7 +3938,7 @@ impl<'s> Semantics<'s> {
 
             di.set(
                 block,
-                Expr::sub(di.get()?, expr_const(2, self.mode().bits()))?,
+                Expr::sub(di.get()?, expr_const(2, di.bits()))?,
             )?;
 
             block.index()
@@ -4362,7 +4391,7 @@ impl<'s> Semantics<'s> {
     pub fn stos(&self, control_flow_graph: &mut ControlFlowGraph) -> Result<(), Error> {
         let detail = self.details()?;
 
-        let di = self.get_register(x86_reg::X86_REG_DI)?.get_full()?;
+        let di = self.address_size_register(x86_reg::X86_REG_DI)?;
 
         // create a block for this instruction
         let (block_index, bits) = {
@@ -4380,7 +4409,7 @@ impl<'s> Semantics<'s> {
 
             di.set(
                 inc_block,
-                Expr::add(di.get()?, expr_const(bits / 8, self.mode().bits()))?,
+                Expr::add(di.get()?, expr_const(bits / 8, di.bits()))?,
             )?;
 
             inc_block.index()
@@ -4391,7 +4420,7 @@ impl<'s> Semantics<'s> {
 
             di.set(
                 dec_block,
-                Expr::sub(di.get()?, expr_const(bits / 8, self.mode().bits()))?,
+                Expr::sub(di.get()?, expr_const(bits / 8, di.bits()))?,
             )?;
 
             dec_block.index()
